@@ -67,7 +67,11 @@ CFG = {
         "Stop is called (on a goroutine of its own) while a worker is parked inside a store callback with further "
         "requests for the same key queued behind it; keys that differ but hash alike (string pairs with equal crc32, "
         "64-bit pairs with equal 8-byte crc32) in half of the histories of the key types that have such pairs; "
-        "parallel callers: 'hashers are functions' (8 goroutines released by a spin barrier call HashedInt of their "
+        "deep backlog on one worker: 3 runs (20 in the thorough tier) in which 1/3/7 requests are served, the "
+        "worker is then held inside a store callback, b further requests for keys of that worker (b in 63..66, "
+        "127..130, 255, 257; at least one run beyond 64) are queued behind it one at a time - each seen to be "
+        "queued before the next is made - and the worker is let go (most of the backlog are deletes whose callback "
+        "fails: one call each); parallel callers: 'hashers are functions' (8 goroutines released by a spin barrier call HashedInt of their "
         "own keys 60000 times each, every key type: every answer equals the single-goroutine value - case kind "
         "CHash) and 4 runs of 8 goroutines x 120 calls, each goroutine on its own two keys of an 8-byte-crc / "
         "string / plain key type, spin barrier before every call, map facade: every goroutine's observation is an "
